@@ -338,7 +338,7 @@ theorem shutdownLog_order (mods threads : List Name) (edges : List (Name × Name
     have h2 := count_map_zero Ev.stopPoll (Ev.shutdown m) (by intro a h; cases h)
     have h3 := count_map_one Ev.shutdown (by intro a b h; cases h; rfl) _ snd m ((smem m).mpr hm)
     simp only [List.map_append, List.count_append, h1, h2, h3]
-    exact ⟨by omega, trivial⟩
+    exact ⟨fun _ => by omega, trivial⟩
   · intro e he _
     unfold NeverAfter
     rw [List.pairwise_append]
